@@ -23,6 +23,25 @@ def is_opaque(v) -> bool:
     return isinstance(v, VRef) and v.sort == OPQ
 
 
+EMIT = "Emitter"   # opaque objects through which the graph under construction can be changed (ctx, builder)
+
+
+def is_emitter(v) -> bool:
+    return isinstance(v, VRef) and v.sort == EMIT
+
+
+def fresh_emitter(ex) -> VRef:
+    return VRef(EMIT, ex.fresh_const("emitter", ref_sort(EMIT)))
+
+
+def note_emission(ex, what: str):
+    """a call that can emit nodes / bind values happened on this path"""
+    ex.events.append(("emission", what, ex.cur_line))
+    hook = getattr(ex.world, "on_emission", None)
+    if hook is not None:
+        hook(ex, what)
+
+
 def install(w):
     if getattr(w, "_opaque_installed", False):
         return
@@ -30,10 +49,54 @@ def install(w):
     ref_sort(OPQ)
     w.trust("operations on opaque library objects (ORT session, jax pytrees, loggers) do not modify modelled state and are not modelled as raising")
 
-    w.call_ref_hooks.append(lambda ex, fn, a, k: (fresh_opaque(ex),) if is_opaque(fn) else None)
+    def call_ref(ex, fn, a, k):
+        if is_emitter(fn):
+            note_emission(ex, "call on the lowering context")
+            return (fresh_emitter(ex),)
+        if is_opaque(fn):
+            if any(is_emitter(x) for x in list(a) + list(k.values())):
+                note_emission(ex, "lowering context passed to an opaque callee")
+            return (fresh_opaque(ex),)
+        return None
+    w.call_ref_hooks.append(call_ref)
+    for lst, mk in ((w.truthy_hooks, lambda ex, v: z3.Bool(ex.fresh_name("emt_truthy")) if is_emitter(v) else None),):
+        lst.append(mk)
+    w.isinstance_hooks.append(lambda ex, v, nm: z3.Bool(ex.fresh_name("emt_isinstance")) if is_emitter(v) else None)
+    w.hasattr_hooks.append(lambda ex, v, nm: z3.Bool(ex.fresh_name("emt_hasattr")) if is_emitter(v) else None)
+    w.getitem_hooks.append(lambda ex, base, idx: fresh_emitter(ex) if is_emitter(base) else None)
     w.truthy_hooks.append(lambda ex, v: z3.Bool(ex.fresh_name("opq_truthy")) if is_opaque(v) else None)
     w.isinstance_hooks.append(lambda ex, v, nm: z3.Bool(ex.fresh_name("opq_isinstance")) if is_opaque(v) else None)
     w.hasattr_hooks.append(lambda ex, v, nm: z3.Bool(ex.fresh_name("opq_hasattr")) if is_opaque(v) else None)
     w.getitem_hooks.append(lambda ex, base, idx: fresh_opaque(ex) if is_opaque(base) else None)
     w.setitem_hooks.append(lambda ex, base, idx, v: True if is_opaque(base) else False)
+    def anyopq(*vs):
+        return any(is_opaque(v) or is_emitter(v) for v in vs)
+
+    w.binop_hooks.append(lambda ex, op, a, b: fresh_opaque(ex) if anyopq(a, b) else None)
+    w.compare_hooks.append(lambda ex, op, a, b: VBool(z3.Bool(ex.fresh_name("opq_cmp"))) if anyopq(a, b) else None)
+    w.unary_hooks.append(lambda ex, op, v: (VBool(z3.Not(ex.truthy(v))) if op.__class__.__name__ == "Not" else fresh_opaque(ex)) if anyopq(v) else None)
+
+    w.callable_hooks.append(lambda ex, v: VBool(z3.Bool(ex.fresh_name("opq_callable"))) if anyopq(v) else None)
+
+    def len_hook(ex, v):
+        if anyopq(v):
+            n = ex.fresh_const("opq_len", z3.IntSort())
+            ex.assume(n >= 0)
+            return VInt(n)
+        return None
+    w.len_hooks.append(len_hook)
+
+    def int_hook(ex, v):
+        if anyopq(v):
+            return VInt(ex.fresh_const("opq_int", z3.IntSort()))
+        return None
+    w.int_hooks.append(int_hook)
+
+    def iter_hook(ex, it):
+        if anyopq(it):
+            s = ex.fresh("opq_items", Seq(Ref(EMIT if is_emitter(it) else OPQ)))
+            ex.assume(s.length >= 0)
+            return s
+        return None
+    w.iter_hooks.append(iter_hook)
     w.opaque = True
